@@ -254,3 +254,12 @@ def reduceMul : List Int → Except Err Int
   | [] => .error .typeError
   | x :: rest => .ok (rest.foldl (· * ·) x)
 end Py
+
+/-! ## double arithmetic whose rounding is not modelled -/
+namespace Py
+/-- `+`, `/` and `abs` on doubles as parameters (negation and the comparisons are exact and are not in here) -/
+structure FloatOps where
+  add : Num → Num → Num
+  div : Num → Num → Num
+  abs : Num → Num
+end Py
